@@ -4,7 +4,7 @@ import GT.Model.GramSchmidt
 import GT.Model.Diag
 import GT.Model.Arcs
 import GT.Model.LinAlgQ
-open Lean GT.J GT Matrix
+open Lean GT.J GT Matrix GT.Iso GT.GS GT.Diag GT.Arcs GT.LinAlgQ
 namespace GT.Driver.C18
 
 /-- rows of a `k × n` rational array as materialised vectors (n read off the form) -/
